@@ -146,7 +146,17 @@ class Ctx:
             return [fn(i) for i in items]
         ctx = mp.get_context("fork")
         with ctx.Pool(n) as pool:
-            return pool.map(fn, items, chunksize)
+            # multiprocessing.Pool waits forever for a task whose worker was killed from outside (OOM killer, memory limit):
+            # watch the workers the pool started with and turn a dead one into a harness error (exit 2) instead of a hang
+            started = list(getattr(pool, "_pool", []))
+            res = pool.map_async(fn, items, chunksize)
+            while True:
+                res.wait(5)
+                if res.ready():
+                    return res.get()
+                dead = [p for p in started if p.exitcode is not None]
+                if dead:
+                    raise HarnessError(f"a pool worker died while tasks were pending (exit code {dead[0].exitcode}): killed from outside?")
 
     # ------------------------------------------------------------------
     def finish(
